@@ -664,6 +664,7 @@ def coverage(agg, tier):
         "top_results_admitted": agg.get("top_results", 0),
         "untranslatable": agg.get("untranslatable", 0),
         "solver_counterexamples_not_reproduced_by_the_real_routes(inconclusive)": agg.get("counterexamples_not_reproduced", 0),
+        "not_reproduced_examples": agg.get("not_reproduced_examples", [])[:4],
         "solver_s": round(agg.get("solver_s", 0.0), 1),
         "rule": "program = (cpu module, decode mode, instruction sequence, noaliasing, memtrace); obligation = one register / the pc / one universally quantified memory byte of one route (block map; state>>block; block.eval(state); stepwise from state) against the z3 composition of the single-instruction maps, for all values of everything the state template leaves symbolic",
         "bounds": {"sequences": "per cpu module and mode (quick 24 | thorough 120) seeded sequences of length 1..(4 | 8) drawn from a pool of randomly decoded instructions (<= 2 per mnemonic in quick) that have semantics",
